@@ -1282,8 +1282,12 @@ class Sim:
             return [cont(Adt("sim::Map", 0, [Ref([d0], 0, ()), args[1]]))]
         if "std::iter::Iterator::enumerate" in names and len(args) == 1 and self._followable(d0):
             return [cont(Adt("sim::Enumerate", 0, [Ref([d0], 0, ()), 0]))]
+        if "std::iter::Iterator::zip" in names and len(args) == 2 and self._followable(d0):
+            d1 = self._deref(args[1], path)
+            if self._followable(d1):
+                return [cont(Adt("sim::Zip", 0, [Ref([d0], 0, ()), Ref([d1], 0, ())]))]
         if "std::iter::Iterator::next" in names and len(args) == 1 and isinstance(d0, Adt) \
-                and d0.adt in ("sim::Map", "sim::Enumerate") \
+                and d0.adt in ("sim::Map", "sim::Enumerate", "sim::Zip") \
                 and isinstance(args[0], Ref):
             def got(rv, sp, e, tr):
                 return [cont(rv if rv is not None else UNK, sp, e)]
@@ -1506,6 +1510,35 @@ class Sim:
 
         return self._inline_multi(fn, env, bb, t, path, depth, next_fn, [it], after_next)
 
+    def _all_any_follow(self, fn, env, bb, t, path, depth, cont, itref, f, k, want_all):
+        """Iterator::all / any over an adaptor the simulator follows (zip / map / enumerate of followable iterators)."""
+        if k > 16 or depth >= self.max_depth:
+            path.end = "stop:iter-limit"
+            return [(env, path, None)]
+        ff = self.find_fn(f.path)
+        if ff is None:
+            return [cont(UNK, path, env)]
+
+        def step(rv, sp, e, tr):
+            f2 = tr(f)
+            if rv is None or not isinstance(rv, Adt):
+                return [cont(UNK, sp, e)]
+            if rv.variant == 0:
+                return [cont(1 if want_all else 0, sp, e)]
+
+            def after_f(r, sp2, e2, tr2):
+                if not isinstance(r, int):
+                    return [cont(UNK, sp2, e2)]
+                if want_all and r == 0:
+                    return [cont(0, sp2, e2)]
+                if not want_all and r == 1:
+                    return [cont(1, sp2, e2)]
+                return self._all_any_follow(fn, e2, bb, t, sp2, depth, cont, tr2(tr(itref)), tr2(f2), k + 1, want_all)
+
+            cargs = [f2, rv.fields[0]] if isinstance(f2, Closure) else [rv.fields[0]]
+            return self._inline_multi(fn, e, bb, t, sp, depth, ff, cargs, after_f)
+        return self._iter_next(fn, env, bb, t, path, depth, itref, step)
+
     def _all_any_items(self, fn, env, bb, t, path, depth, cont, items, k, f, want_all):
         """Iterator::all / any over the remaining items of a known array / slice iterator."""
         if k >= len(items):
@@ -1608,6 +1641,24 @@ class Sim:
                 item = elems[i] if len(it.fields) > 2 else Ref([elems[i]], 0, ())
                 return contm(Adt("std::option::Option", 1, [item]), path, env, lambda v: v)
             return contm(Adt("std::option::Option", 0, []), path, env, lambda v: v)
+        if it.adt == "sim::Zip":
+            # one step of each side; the first side to run out ends the pair iterator (the other side is not asked then)
+            def after_left(rv, sp, e, tr):
+                if not isinstance(rv, Adt):
+                    return contm(None, sp, e, tr)
+                if rv.variant == 0:
+                    return contm(rv, sp, e, tr)
+                me = self._deref(tr(itref), sp)
+
+                def after_right(rv2, sp2, e2, tr2):
+                    if not isinstance(rv2, Adt):
+                        return contm(None, sp2, e2, lambda v: tr2(tr(v)))
+                    if rv2.variant == 0:
+                        return contm(rv2, sp2, e2, lambda v: tr2(tr(v)))
+                    return contm(Adt("std::option::Option", 1, [Tup([tr2(rv.fields[0]), rv2.fields[0]])]), sp2, e2,
+                                 lambda v: tr2(tr(v)))
+                return self._iter_next(fn, e, bb, t, sp, depth, me.fields[1], after_right)
+            return self._iter_next(fn, env, bb, t, path, depth, it.fields[0], after_left)
         if it.adt == "sim::Enumerate":
             def after_counted(rv, sp, e, tr):
                 if not isinstance(rv, Adt):
@@ -1659,7 +1710,7 @@ class Sim:
         return self._iter_next(fn, env, bb, t, path, depth, itref, step)
 
     def _followable(self, v):
-        return isinstance(v, Adt) and (v.adt in ("sim::SliceIter", "sim::Map", "sim::Enumerate") or self._local_next(v.adt) is not None)
+        return isinstance(v, Adt) and (v.adt in ("sim::SliceIter", "sim::Map", "sim::Enumerate", "sim::Zip") or self._local_next(v.adt) is not None)
 
     def _local_next(self, self_ty):
         """The local `Iterator::next` implementation for an iterator type, if any."""
@@ -1741,6 +1792,10 @@ class Sim:
             elems = list(seq.b if isinstance(seq, Bytes) else seq.fields)[i:]
             items = [e if len(x.fields) > 2 else Ref([e], 0, ()) for e in elems]
             return self._all_any_items(fn, env, bb, t, path, depth, cont, items, 0, f, p.endswith("::all"))
+        if p in ("std::iter::Iterator::all", "std::iter::Iterator::any") and isinstance(f, (Closure, FnItem)) \
+                and isinstance(x, Adt) and x.adt in ("sim::Zip", "sim::Map", "sim::Enumerate"):
+            itref = args[0] if isinstance(args[0], Ref) else Ref([x], 0, ())
+            return self._all_any_follow(fn, env, bb, t, path, depth, cont, itref, f, 0, p.endswith("::all"))
         if p in ("std::iter::Iterator::all", "std::iter::Iterator::any") and isinstance(f, (Closure, FnItem)):
             substs = t["callee"].get("substs") or []
             nf = self._local_next(substs[0]) if substs else None
